@@ -77,6 +77,15 @@ class Registry:
                               'pprint.pprint', 'lian.util.util.log'}
         self.subclasses = {}      # class name -> set of dynamic class names accepted by isinstance
         self.lemmas = []          # [(name, lambda: (hyps, goal))] pure logical lemmas over the contracts
+        # trusted specifications of opaque library objects (Opaque(name)): attribute reads/writes, item reads/writes, iteration
+        self.opaque_getattr = {}  # (type, attr) -> fn(ex, st, recv) -> V
+        self.opaque_setattr = {}  # (type, attr) -> fn(ex, st, recv, value)
+        self.opaque_getitem = {}  # type -> fn(ex, st, recv, key) -> V      key: V, or ('slice', lo V|None, hi V|None), or tuple of those
+        self.opaque_setitem = {}  # type -> fn(ex, st, recv, key, value)
+        self.opaque_iter = {}     # type -> fn(ex, st, recv) -> loops.Iter
+        self.opaque_truth = {}    # type -> fn(ex, st, recv) -> z3 Bool
+        self.opaque_compare = {}  # type -> fn(ex, st, left, opname, right) -> V   (overloaded comparison operators)
+        self.axioms = []          # extra closed axioms (trusted library facts) added to every VC of this registry
 
     def add(self, c: Contract):
         assert c.key not in self.contracts, c.key
@@ -115,6 +124,13 @@ class Registry:
         def deco(f):
             f.trusted_name = trusted_name or f'{tkey}.{method}'
             self.extern_methods[(tkey, method)] = f
+            return f
+        return deco
+
+    def opaque(self, table, key, trusted_name=None):
+        def deco(f):
+            f.trusted_name = trusted_name or f'{key}'
+            getattr(self, table)[key] = f
             return f
         return deco
 
